@@ -324,6 +324,36 @@ fn tree_rec(node: EntriesTreeNode<R>, full: bool, out: &mut Vec<String>) -> Resu
     Ok(())
 }
 
+/// the tree recursion when the caller does not iterate the children of every node
+fn tree_rec_sel(node: EntriesTreeNode<R>, out: &mut Vec<String>) -> Result<(), gimli::Error> {
+    let descend = {
+        let e = node.entry();
+        out.push(format!("{}:{}", e.offset().0, e.depth()));
+        e.offset().0 % 3 != 0
+    };
+    if !descend {
+        return Ok(());
+    }
+    let mut ch = node.children();
+    while let Some(child) = ch.next()? {
+        tree_rec_sel(child, out)?;
+    }
+    Ok(())
+}
+
+fn style_skip(h: &UnitHeader<R>, tbl: &Abbreviations) -> String {
+    let mut tree = match h.entries_tree(tbl, None) {
+        Ok(t) => t,
+        Err(e) => return format!("!{}", errname(&e)),
+    };
+    let mut out = Vec::new();
+    let r = match tree.root() {
+        Ok(root) => tree_rec_sel(root, &mut out),
+        Err(e) => Err(e),
+    };
+    with_err(",", out, r.err())
+}
+
 fn style_tree(h: &UnitHeader<R>, tbl: &Abbreviations, off: Option<usize>, full: bool, sep: &str) -> String {
     let mut tree = match h.entries_tree(tbl, off.map(UnitOffset)) {
         Ok(t) => t,
@@ -378,10 +408,10 @@ fn style_walk(h: &UnitHeader<R>, tbl: &Abbreviations) -> String {
 }
 
 fn sample_indices(n: usize) -> Vec<usize> {
-    if n <= 48 {
+    if n <= 24 {
         return (0..n).collect();
     }
-    let k = std::cmp::max(6, 2400 / n);
+    let k = std::cmp::max(4, 600 / n);
     let mut l: Vec<usize> = (0..k).map(|i| i * n / k).collect();
     l.push(n - 1);
     l.sort();
@@ -396,6 +426,7 @@ struct Styles {
     sib: String,
     walk: String,
     tree: String,
+    skip: String,
     at: String,
     from: String,
     sub: String,
@@ -432,6 +463,7 @@ fn styles(h: &UnitHeader<R>, tbl: &Abbreviations, nav: bool) -> Styles {
     let sib = per_off(&offsets, &mut |o| style_sib_at(h, tbl, o));
     let walk = if nav { String::new() } else { style_walk(h, tbl) };
     let tree = style_tree(h, tbl, None, true, ";");
+    let skip = style_skip(h, tbl);
     let at = per_off(&offsets, &mut |o| match h.entry(tbl, UnitOffset(o)) {
         Ok(e) => show_entry(&e, e.depth()),
         Err(e) => format!("!{}", errname(&e)),
@@ -512,6 +544,28 @@ fn styles(h: &UnitHeader<R>, tbl: &Abbreviations, nav: bool) -> Styles {
                     }
                 }
                 bad("tree", &join(";", &tr), &tree);
+                // subtrees of entries whose offset is a multiple of 3 are not visited
+                let mut sk = Vec::new();
+                let mut skip_below: Option<isize> = None;
+                for (n, x) in raw_ents.iter().enumerate() {
+                    if n > 0 && x.depth <= first.depth {
+                        break;
+                    }
+                    if let Some(sd) = skip_below {
+                        if x.depth > sd {
+                            continue;
+                        }
+                        skip_below = None;
+                    }
+                    if x.null {
+                        continue;
+                    }
+                    sk.push(format!("{}:{}", x.off, x.depth));
+                    if x.off % 3 == 0 {
+                        skip_below = Some(x.depth);
+                    }
+                }
+                bad("skip", &join(",", &sk), &skip);
             }
         }
         let mut wk = Vec::new();
@@ -525,7 +579,7 @@ fn styles(h: &UnitHeader<R>, tbl: &Abbreviations, nav: bool) -> Styles {
         }
         bad("walk", &join(";", &wk), &walk);
     }
-    Styles { raw, ent, dfs, sib, walk, tree, at, from, sub, oracle }
+    Styles { raw, ent, dfs, sib, walk, tree, skip, at, from, sub, oracle }
 }
 
 // <be> <types> <info hex> <abbrev hex>
@@ -563,6 +617,7 @@ fn forest(t: &[&str], nav: bool) -> String {
         toks.push(tok(false, "walk", &s.walk));
     }
     toks.push(tok(nav, "tree", &s.tree));
+    toks.push(tok(nav, "skip", &s.skip));
     toks.push(tok(nav, "at", &s.at));
     toks.push(tok(nav, "from", &s.from));
     toks.push(tok(nav, "sub", &s.sub));
